@@ -161,9 +161,29 @@ def gen_history_scenario(rng, n_steps=8, **kw):
             st = gen_edit(rng, cur, kinds=kw.get("edit_kinds", ("set", "add", "delete", "mkdir", "touch")))
             steps.append(st)
             cur = world.tree_apply(cur, st)
-        elif r < 0.85:
+        elif r < 0.78:
             steps.append({"op": "verify"})
-        else:
+        elif r < 0.84:
             steps.append({"op": "diff"})
+        elif r < 0.90:
+            st = {"op": "verifydh"}
+            if rng.random() < 0.3:
+                st["co"] = True
+            if rng.random() < 0.2:
+                st["ro"] = True
+            if rng.random() < 0.2:
+                st["fmt"] = rng.choice(FORMATS)
+            steps.append(st)
+        elif r < 0.94:
+            steps.append({"op": "info"})
+        elif r < 0.97:
+            files = all_files(cur)
+            if files:
+                st = {"op": "infosf", "file": rng.choice(files)}
+                if rng.random() < 0.5:
+                    st["root"] = ""
+                steps.append(st)
+        else:
+            steps.append({"op": "flatten"})
     steps.append({"op": "verify"})
     return {"tree": tree, "steps": steps}
